@@ -248,9 +248,15 @@ C07_ReceiverGains(pre, ev, post) ==
     (r # Caller(ev) /\ r \notin AddressedContracts(pre, ev)) =>
         \A info \in AllAssets(post) : NGe(Bal(post, info, r), Bal(pre, info, r))
 
+\* A holder destroying its own cw20 tokens (cw20 Burn sent to the token by the holder) is the one operation of the
+\* environment that changes a supply without the AMM: it is named here, not forbidden (the contracts cannot prevent
+\* it); what the AMM guarantees across it is everything else (C01, C03, C04, C20 on the states it leads to)
+IsHolderBurn(ev) == Kind(ev) = "cw20_burn" /\ TxOk(ev)
+BurnedOf(ev, t) == IF IsHolderBurn(ev) /\ ev.op.token = t THEN ev.op.amount ELSE N0
+
 C07_Conserved(pre, ev, post) ==
     /\ \A d \in Denoms(pre) : Total(post, Native(d)) = Total(pre, Native(d))
-    /\ \A t \in Tokens(pre) \ LpTokens(pre) : Supply(post, t) = Supply(pre, t) /\ Total(post, Token(t)) = Supply(post, t)
+    /\ \A t \in Tokens(pre) \ LpTokens(pre) : NAdd(Supply(post, t), BurnedOf(ev, t)) = Supply(pre, t) /\ Total(post, Token(t)) = Supply(post, t)
     /\ \A t \in LpTokens(post) : Total(post, Token(t)) = Supply(post, t)
 
 C07_LpSupply(pre, ev, post) ==
@@ -261,7 +267,7 @@ C07_LpSupply(pre, ev, post) ==
              Len(pe) = 1 /\ S2 = NAdd(NAdd(S, pe[1].share), IF S = N0 THEN N1 ELSE N0)
         ELSE IF TxOk(ev) /\ IsWithdrawTx(pre, ev) /\ ev.op.contract = p
         THEN NAdd(S2, ev.op.amount) = S
-        ELSE S2 = S
+        ELSE NAdd(S2, BurnedOf(ev, pre.pair[p].lp)) = S
 
 C07_Allowances(pre, ev, post) ==
     \A t \in Tokens(pre) : \A x \in pre.tok[t].allow :
@@ -385,7 +391,7 @@ C15_Provide(pre, ev) ==
 EntryMatchesPair(w, e) ==
     /\ e.pair \in Pairs(w)
     /\ LET p == w.pair[e.pair] IN
-       /\ e.a0 = p.a0 /\ e.a1 = p.a1 /\ e.lp = p.lp
+       /\ e.a0 = p.a0 /\ e.a1 = p.a1 /\ e.lp = p.lp /\ p.self_lp = p.lp
        /\ e.commission = p.commission /\ e.wl = p.wl /\ e.m0 = p.m0 /\ e.m1 = p.m1
 EntryDecimalsMatch(w, e) ==
     e.pair \in Pairs(w) => (e.d0 = w.pair[e.pair].d0 /\ e.d1 = w.pair[e.pair].d1)
